@@ -488,6 +488,26 @@ def check_entities(ctx):
                       "`&%s..;` decoded with radix %s from byte offset %s under the guard len > %s (expected radix %d, offset %d, guard len > %d so that one-digit references decode)" % (prefix, r, s, g, wr, ws, ws + 1)))
     oks = scalars.get("#x") is True and scalars.get("#") is True
     obs.append(ob("C12.entity/scalar", oks, where, "both numeric forms go through char::from_u32 (surrogates and out-of-range values rejected): %s" % scalars))
+    # named references are case-sensitive (`&Auml;` and `&auml;` are different characters): the name is looked up, and the table
+    # is filled, with the text as it stands
+    folds = []
+    verdict = None
+    pn = [x for x in f.param_names() if x]
+    for g in [h for h in tc.fns if h.body and "entities" in h.module]:
+        for n in sir.walk(g.body, into_closures=True):
+            if n.get("k") == "mcall" and re.search(r"to_(ascii_)?(lower|upper)case|make_ascii_(lower|upper)case|eq_ignore_ascii_case|trim|replace", n["m"]):
+                folds.append("%s calls `.%s()`" % (g.name, n["m"]))
+    for n in sir.walk(f.body):
+        if n.get("k") == "mcall" and n["m"] == "get" and len(n["args"]) == 1 and "MAPPING" in sir.expr_str(n["recv"]).upper():
+            a = sir.strip_ref(n["args"][0])
+            while a.get("k") == "mcall" and a["m"] in ("as_ref", "as_str", "borrow", "deref") and not a["args"]:
+                a = sir.strip_ref(a["recv"])
+            if a.get("k") == "path" and len(a["segs"]) == 1 and a["segs"][0] in pn:
+                verdict = True
+    if folds:
+        verdict = False
+    obs.append(ob("C12.entity/named-verbatim", verdict, where, "the named-reference table is consulted with the reference as written" if verdict else "; ".join(sorted(set(folds))[:3]) if folds else "the lookup is not a `get` with the parameter itself: not decided",
+                  witness=None if verdict is not False else "&Auml; decodes to the character of &auml;"))
     return obs
 
 
@@ -569,6 +589,59 @@ def wave7_rules(ctx):
     ob = ctx.ob
     tc = ctx.tc
     obs = []
+    # (0') wave 9: a `{{ .. }}` binding that was read as an expression stays a binding in the value that is built (folding a constant
+    #      into the static text in front of it makes the text node subject to the blank-text rules of static text)
+    import absint as ai
+    vf = [f for f in tc.fns if f.name == "parse_until_before" and f.base == "Value" and f.body]
+    if vf:
+        f = vf[0]
+        arms = [a for m_ in sir.walk(f.body) if m_.get("k") == "match" and any((sir.call_name(x) or "").endswith("parse_data_binding") for x in sir.walk(m_["e"], into_closures=True) if x.get("k") in ("call", "mcall")) for a in m_["arms"] if "Dynamic" in sir.pat_str(a["pat"])]
+        verdict, d = None, "the arm for an accepted binding was not found in a form this rule reads"
+        if len(arms) == 1:
+            binds = set(x["name"] for x in sir.walk(arms[0]["pat"]) if x.get("k") == "p_ident")
+            bad, und, n_ = [], False, 0
+            for label, start in (("static text", ("E", "Static", (("value", ai.FREE), ("location", ai.FREE)))),
+                                 ("a binding", ("E", "Dynamic", (("expression", ai.FREE), ("double_brace_location", ai.FREE), ("binding_map_keys", ai.FREE))))):
+                it = ai.Interp(idx=tc)
+                env = {b: ai.FREE for b in binds}
+                env.update({"ret": start, "ps": ai.FREE, "has_wrap_to_string": ai.FREE, "start_pos": ai.FREE})
+                try:
+                    outs = it.run(arms[0]["body"], env)
+                except ai.TooManyPaths:
+                    outs = None
+                if not outs:
+                    und = True
+                    continue
+                for o in outs:
+                    r = o.st.env.get("ret")
+                    n_ += 1
+                    if isinstance(r, tuple) and r[:2] == ("E", "Dynamic"):
+                        continue
+                    if isinstance(r, tuple) and r[:2] == ("E", "Static"):
+                        bad.append("after %s, a path through the arm leaves the value static" % label)
+                    else:
+                        und = True
+            verdict = False if bad else None if und else True
+            d = "; ".join(sorted(set(bad))) if bad else "on all %d paths the value is a binding afterwards" % n_ if verdict else "a path through the arm was not followed: not decided"
+        obs.append(ob("C12.binding/kept", verdict, ctx.where(f), d, witness=None if verdict is not False else "<div>{{ ' ' }}</div>: the text node is dropped as blank static text"))
+    # (0) wave 9: the `data-` marker of a dataset attribute is taken off once (`data-data-id` is the dataset name `dataId`)
+    ONCE = {"strip_prefix", "starts_with", "split_once"}
+    MANY = {"trim_start_matches", "trim_left_matches", "trim_matches", "replace", "split", "rsplit", "rsplit_once", "trim_end_matches", "strip_suffix", "rfind", "rsplitn"}
+    uses = []
+    for f in tc.fns:
+        if not f.body or f.module[:1] != ["parse"]:
+            continue
+        for n in sir.walk(f.body, into_closures=True):
+            if n.get("k") == "mcall" and n["args"] and sir.strip_ref(n["args"][0]).get("k") == "lit" and sir.strip_ref(n["args"][0]).get("v") == "data-":
+                uses.append((f, n["m"]))
+    if uses:
+        bad = [(f, m) for f, m in uses if m in MANY]
+        und = [(f, m) for f, m in uses if m not in MANY and m not in ONCE]
+        obs.append(ob("C12.normalise/data-prefix-once", False if bad else None if und else True, ctx.where((bad or und or uses)[0][0]),
+                      "`data-` is handled with %s" % sorted(set(m for _f, m in uses)) + (": %s does not stop after the first occurrence" % bad[0][1] if bad else ""),
+                      witness=None if not bad else "data-data-id is emitted as the dataset name `id` instead of `dataId`"))
+    else:
+        obs.append(ob("C12.normalise/data-prefix-once", None, "parse/tag.rs", "no string operation with the literal `data-` found: not decided"))
     # (1) inside a string literal no look-ahead runs while blank skipping is still on (peek() skips blanks and comments as a side
     #     effect): after the opening quote has been consumed every cursor call sits inside parse_off_auto_whitespace
     fs = [f for f in tc.fns if f.name == "parse_lit_str" and f.body]
